@@ -1229,11 +1229,37 @@ class Interp:
             return self.eval(f.node.body, loc, f.module)
         if isinstance(f, Closure):
             a = f.node.args
-            names = [x.arg for x in a.args]
-            if len(args) != len(names) or kwargs:
-                raise Unsupported("closure call arity", node)
+            names = [x.arg for x in a.posonlyargs + a.args]
             loc = _ChainEnv(f.env)
+            loc["#locals"] = _local_stores(f.node)
+            args = list(args)
+            kwargs = dict(kwargs or {})
+            if len(args) > len(names) and a.vararg is None:
+                raise Unsupported("closure call arity", node)
             loc.update(zip(names, args))
+            if a.vararg is not None:
+                loc[a.vararg.arg] = tuple(args[len(names):])
+            dflt = a.defaults
+            dnames = names[len(names) - len(dflt):]
+            for nme in names[len(args):]:
+                if nme in kwargs:
+                    loc[nme] = kwargs.pop(nme)
+                elif nme in dnames:
+                    loc[nme] = self.eval(dflt[dnames.index(nme)], f.env,
+                                         f.module)
+                else:
+                    raise Unsupported("closure call arity", node)
+            for k_, d_ in zip(a.kwonlyargs, a.kw_defaults):
+                if k_.arg in kwargs:
+                    loc[k_.arg] = kwargs.pop(k_.arg)
+                elif d_ is not None:
+                    loc[k_.arg] = self.eval(d_, f.env, f.module)
+                else:
+                    raise Unsupported("closure keyword argument", node)
+            if a.kwarg is not None:
+                loc[a.kwarg.arg] = kwargs
+            elif kwargs:
+                raise Unsupported("closure call arity", node)
             return self.run_body(f.node.body, loc, f.module)
         if isinstance(f, Opaque) and getattr(self, "lenient_attrs", False):
             return Opaque(f.tag + "(..)")
